@@ -15,4 +15,5 @@ def obligations(ctx):
     out += pick(ho, [("B-3", "exists-before-index"), ("B-3b", "index-before-livelist"), ("B-3c", "index-under-flush-lock")])
     out += pick(allocspec.allocator_step(ctx), [("B-4", "allocator-step"), ("B-4r", "allocator-range")])
     out += pick(allocspec.plan_output_ids(ctx), [("B-5", "fresh-output-id")])
+    out += pick(allocspec.allocator_seed(ctx), [("B-6", "allocator-seed")])
     return out
